@@ -143,6 +143,8 @@ def install_monitors(node: Any) -> None:
     def lex(self: Any, raw: Any):
         fname = getattr(raw, "fname", None)
         _MON["lex"].append(fname)
+        n = _MON["node"]
+        n.events.append(["lex", n.name, fname])
         return orig_lex(self, raw)
 
     Lexer.lex = lex  # type: ignore
@@ -151,6 +153,8 @@ def install_monitors(node: Any) -> None:
 
     def parse(self: Any, segments: Any, fname: Any = None, parse_statistics: bool = False):
         _MON["parse"].append(fname)
+        n = _MON["node"]
+        n.events.append(["parse", n.name, fname])
         return orig_parse(self, segments, fname=fname, parse_statistics=parse_statistics)
 
     Parser.parse = parse  # type: ignore
